@@ -54,11 +54,17 @@ func (m *Machine) strLess(a, b Str, orEq bool) *Term {
 	return res
 }
 
+// Pseudo-runes: a byte that is not part of a complete UTF-8 sequence (the result of
+// cutting a string inside a multi-byte character) is represented as 0x110000 + byte.
+const pseudoBase = 0x110000
+
 func (m *Machine) utf8Len(r *Term) *Term {
 	c := m.ctx
 	if r.IsConst() {
 		v := r.U
 		switch {
+		case v >= pseudoBase:
+			return mkInt(64, 1)
 		case v < 0x80:
 			return mkInt(64, 1)
 		case v < 0x800:
@@ -68,9 +74,84 @@ func (m *Machine) utf8Len(r *Term) *Term {
 		}
 		return mkInt(64, 4)
 	}
+	last := mkInt(64, 4)
+	if !r.Valid {
+		last = c.Ite(c.Ult(r, mkBV(32, pseudoBase)), mkInt(64, 4), mkInt(64, 1))
+	}
 	return c.Ite(c.Ult(r, mkBV(32, 0x80)), mkInt(64, 1),
 		c.Ite(c.Ult(r, mkBV(32, 0x800)), mkInt(64, 2),
-			c.Ite(c.Ult(r, mkBV(32, 0x10000)), mkInt(64, 3), mkInt(64, 4))))
+			c.Ite(c.Ult(r, mkBV(32, 0x10000)), mkInt(64, 3), last)))
+}
+
+// runeBytes returns the UTF-8 bytes (BV8 terms) of rune r, forking on its length class.
+func (m *Machine) runeBytes(r *Term) []*Term {
+	c := m.ctx
+	n := m.concretize(m.utf8Len(r), 4, "UTF-8 length of a rune")
+	r = m.simplify(r)
+	b := func(t *Term) *Term { return c.Resize(t, 8, false) }
+	sh := func(k uint64) *Term { return c.LShr(r, mkBV(32, k)) }
+	cont := func(t *Term) *Term { return c.BOr(c.BAnd(b(t), mkBV(8, 0x3F)), mkBV(8, 0x80)) }
+	switch n {
+	case 1:
+		if r.IsConst() && r.U >= pseudoBase {
+			return []*Term{mkBV(8, r.U-pseudoBase)}
+		}
+		// a valid 1-byte rune, or a pseudo-rune (low byte is the byte itself)
+		return []*Term{b(r)}
+	case 2:
+		return []*Term{c.BOr(b(sh(6)), mkBV(8, 0xC0)), cont(r)}
+	case 3:
+		return []*Term{c.BOr(b(sh(12)), mkBV(8, 0xE0)), cont(sh(6)), cont(r)}
+	}
+	return []*Term{c.BOr(b(sh(18)), mkBV(8, 0xF0)), cont(sh(12)), cont(sh(6)), cont(r)}
+}
+
+func (m *Machine) pseudoRune(b *Term) *Term {
+	return m.ctx.Add(mkBV(32, pseudoBase), m.ctx.Resize(b, 32, false))
+}
+
+// strSlice implements s[lo:hi] with byte offsets on a rune-string.
+func (m *Machine) strSlice(fr *frame, s Str, lo, hi int64) Str {
+	m.needConcreteStr(s, "slicing")
+	var out []*Term
+	off := int64(0)
+	for _, r := range s.R {
+		if off >= hi {
+			break
+		}
+		n := m.concretize(m.utf8Len(r), 4, "UTF-8 length of a rune")
+		end := off + n
+		switch {
+		case end <= lo:
+			// entirely before the slice
+		case off >= lo && end <= hi:
+			out = append(out, r)
+		default:
+			// the cut falls inside this character: keep the covered bytes
+			bs := m.runeBytes(r)
+			for i, b := range bs {
+				p := off + int64(i)
+				if p >= lo && p < hi {
+					out = append(out, m.pseudoRune(b))
+				}
+			}
+		}
+		off = end
+	}
+	if hi > off || lo > hi || lo < 0 {
+		m.rtPanic(fr, fmt.Sprintf("slice bounds out of range [%d:%d] with length %d", lo, hi, off))
+	}
+	return Str{R: out}
+}
+
+// strBytes returns all bytes of s (forking on the length class of symbolic runes).
+func (m *Machine) strBytes(s Str) []*Term {
+	m.needConcreteStr(s, "byte access")
+	var out []*Term
+	for _, r := range s.R {
+		out = append(out, m.runeBytes(r)...)
+	}
+	return out
 }
 
 func (m *Machine) strLen(s Str) *Term {
@@ -84,15 +165,19 @@ func (m *Machine) strLen(s Str) *Term {
 }
 
 func (m *Machine) strIndex(fr *frame, s Str, idx *Term) value {
-	gs, ok := s.Concrete()
-	if !ok || !idx.IsConst() {
-		panic(unsupported("byte indexing of a symbolic string"))
+	if gs, ok := s.Concrete(); ok && idx.IsConst() {
+		i := idx.Int()
+		if i < 0 || i >= int64(len(gs)) {
+			m.rtPanic(fr, fmt.Sprintf("index out of range [%d] with length %d", i, len(gs)))
+		}
+		return mkBV(8, uint64(gs[i]))
 	}
-	i := idx.Int()
-	if i < 0 || i >= int64(len(gs)) {
-		m.rtPanic(fr, fmt.Sprintf("index out of range [%d] with length %d", i, len(gs)))
+	i := m.concretize(m.ctx.Resize(idx, 64, true), 16, "string index")
+	bs := m.strBytes(s)
+	if i < 0 || i >= int64(len(bs)) {
+		m.rtPanic(fr, fmt.Sprintf("index out of range [%d] with length %d", i, len(bs)))
 	}
-	return mkBV(8, uint64(gs[i]))
+	return bs[i]
 }
 
 // ---------------------------------------------------------------------
